@@ -11,6 +11,8 @@
 (*        cannot continue any viable prefix (PrefLang fixpoint), or the    *)
 (*        first byte no term matches; nothing on success                   *)
 (*   C06  positions stay inside the input; stacks stay in sync             *)
+(*   C08  after a successful recovery, input tokens are missing from the   *)
+(*        result tree only where an `error` leaf stands                    *)
 (*   C05  for operator grammars the result tree is the one the readme's    *)
 (*        four precedence rules define at tree level (no table involved)   *)
 (***************************************************************************)
@@ -120,6 +122,25 @@ PrecedenceShapesTheTree ==
 OperatorGrammarAcceptsItsLanguage ==
   (Done /\ OpGram[g]) => LET tk == Toks(g, inp, 0, <<>>) IN (status = "acc") <=> (tk[1] /\ tk[2] \in LangOf[g])
 
+\* C08: what recovery may do to the input, stated on the RESULT TREE of a parse that recovered and succeeded (no table, no
+\* modes): the leaves are input tokens in input order, each used once, and input tokens are missing from the tree only
+\* where an `error` leaf stands - between two neighbouring leaves that are both real tokens nothing was dropped.
+RECURSIVE YieldE(_, _)
+YieldE(ns, id) == IF id = -2 THEN <<-2>> ELSE IF id < 0 THEN <<>>
+                  ELSE IF ns[id + 1].k = 0 THEN <<id>>
+                  ELSE LET ch == ns[id + 1].ch IN
+                       LET RECURSIVE YC(_) YC(i) == IF i > Len(ch) THEN <<>> ELSE YieldE(ns, ch[i]) \o YC(i + 1) IN YC(1)
+TokensDroppedOnlyUnderError ==
+  (status = "acc" /\ ~NoErrRules(g) /\ Len(vals) = 1) =>
+    LET y == YieldE(nodes, vals[1])
+        wss == D!WsSet(opt)
+        EndOf(i) == IF i = 0 THEN 0 ELSE nodes[y[i] + 1].off + nodes[y[i] + 1].len
+        StartOf(i) == IF i > Len(y) THEN Len(inp) ELSE nodes[y[i] + 1].off
+    IN /\ \A i \in 0..Len(y) :
+            ((i = 0 \/ y[i] # -2) /\ (i = Len(y) \/ y[i + 1] # -2)) => D!SkipWs(inp, EndOf(i), wss) = StartOf(i + 1)
+       /\ \A i, j \in 1..Len(y) : (i < j /\ y[i] # -2 /\ y[j] # -2) => nodes[y[i] + 1].off + nodes[y[i] + 1].len <= nodes[y[j] + 1].off
+       /\ (msgs = <<>>) <=> (\A i \in 1..Len(y) : y[i] # -2)
+
 \* C09
 \* index of the first token whose prefix is not viable (eof counts as token Len+1 when `eofToo'); 0 if none
 FirstBad(gg, tk, eofToo) ==
@@ -151,5 +172,5 @@ InitGiven == \E i \in 1..Len(Given) : D!Init0(Given[i].g, Given[i].bytes, [v |->
 SpecGiven == InitGiven /\ [][Next]_vars
 VerdictReported == ~Done \/ PrintT(<<"VERDICT", ToJson([g |-> g, bytes |-> inp, ws |-> opt.ws, nl |-> opt.nl, status |-> status, msgs |-> msgs,
                                                          root |-> IF status = "acc" THEN vals[1] ELSE -1, maxstack |-> mxd,
-                                                         nodes |-> [i \in 1..Len(nodes) |-> [k |-> nodes[i].k, sym |-> nodes[i].sym, ch |-> nodes[i].ch]]])>>)
+                                                         nodes |-> [i \in 1..Len(nodes) |-> [k |-> nodes[i].k, sym |-> nodes[i].sym, ch |-> nodes[i].ch, off |-> nodes[i].off, len |-> nodes[i].len]]])>>)
 =============================================================================
